@@ -70,6 +70,15 @@ func (tps *TPS) SetShareData(shareData []byte) error {
 		return err
 	}
 
+	// Signing indexes the private key by message component and the public keys by party
+	if len(tps.sk.ys) != tps.MessageLength+1 {
+		return fmt.Errorf("share data holds a private key of %d components but %d are needed", len(tps.sk.ys), tps.MessageLength+1)
+	}
+
+	if len(tps.storedData.PublicKeys) < len(tps.parties) {
+		return fmt.Errorf("share data holds %d public keys but there are %d parties", len(tps.storedData.PublicKeys), len(tps.parties))
+	}
+
 	tps.publicKeysOfParties = make(map[uint16][]byte)
 
 	for i, p := range tps.parties {
